@@ -19,8 +19,10 @@ REPO = os.environ.get("VERIF_REPO", "/repo")
 BUILD = os.path.join(VERIF, "build")
 SPEC = os.path.join(VERIF, "spec")
 HARNESS = os.path.join(VERIF, "harness")
-EVIDENCE = os.path.join(VERIF, "evidence")
-REPLAYS = os.path.join(VERIF, "replays")
+# evidence and replays of a run against another tree (VERIF_REPO, used to try seeded changes) stay out of the committed ones
+_ALT = "" if REPO == "/repo" else "-" + hashlib.sha1(REPO.encode()).hexdigest()[:8]
+EVIDENCE = os.path.join(VERIF, "evidence") if not _ALT else os.path.join(VERIF, "build", "evidence" + _ALT)
+REPLAYS = os.path.join(VERIF, "replays") if not _ALT else os.path.join(VERIF, "build", "replays" + _ALT)
 TLA_JAR = "/opt/veriftools/tla/tla2tools.jar:/opt/veriftools/tla/CommunityModules-deps.jar"
 GUARD = "IPR_VERIF"
 
